@@ -32,8 +32,9 @@ PARTIAL = [
     "C05_bounded_kdf_partial: wanted C05_bounded_kdf = at most 2 + 63 + 3 KDF calls per unprotect_offline call as a theorem about a counter threaded through the whole pipeline. "
     "The Crypto record's KDFs are pure functions and the model has no call counter (Model files are not instrumented), so the theorem covers the only loops that call a KDF: the "
     "regenerated kernel k_compute_l2_key with ANY kdf instrumented by a counter makes <= 31 + 1 + 31 calls from an envelope at a position <= (31, 31), returns the key of the "
-    "uninstrumented run and never exhausts a fuel >= 32. Missing: the constant number of calls of the straight-line code around it (compute_l1_key 2, get_kek / "
-    "compute_kek_from_public_key / compute_kek <= 3) is by inspection of the model, and the cost of pow(b, e, m) on attacker-chosen DH parameters is not bounded; the harness "
+    "uninstrumented run and never exhausts a fuel >= 32. The constant number of calls of the straight-line code around it (compute_l1_key 2, get_kek / "
+    "compute_kek_from_public_key / compute_kek <= 3) is now a theorem about the regenerated source syntax (C05_kdf_call_sites: call sites and loop-freeness of every function on the "
+    "path); what is still missing is ONE theorem that threads a counter through the whole pipeline, and the cost of pow(b, e, m) on attacker-chosen DH parameters is not bounded; the harness "
     "enforces the KDF-call budget on the implementation (symbolic crypto budget).",
     "'parser steps proportional to input size' has no theorem of its own: C05_no_fuel_exhaustion / C05_l2_loops_within_fuel bound every LOOP of the model by the input length or by 32, "
     "which bounds the work of the model but is not stated as one linear bound; on the implementation the real-crypto oracle runs every hostile blob under an interpreter-step budget "
